@@ -24,12 +24,18 @@ func (s *kvp) Value() any     { return s.val }
 func (s *kvp) SetValue(v any) { s.val = v }
 
 func (s *kvp) SerializeValueTo(pc *PrintCtx) {
+	if pc.jsonMode { // an attribute used as a value is a one-member object
+		pc.pcAppendByte('{')
+	}
 	pc.pcAppendStringKey(s.key)
-	pc.pcAppendByte('=')
+	pc.pcAppendColon()
 
 	pc.prefix = ""
 	pc.inGroupedMode = false
 	pc.appendValue(s.val)
+	if pc.jsonMode {
+		pc.pcAppendByte('}')
+	}
 }
 
 type Attrs []Attr // slice of Attr
@@ -68,6 +74,7 @@ func (s *gkvp) Add(as ...Attr) {
 
 func (s *gkvp) SerializeValueTo(pc *PrintCtx) {
 	if pc.jsonMode {
+		pc.pcAppendByte('{') // a group used as a value is a one-member object holding the group
 		if pc.noColor {
 			pc.pcAppendStringKey(s.key)
 			pc.pcAppendByte(':')
@@ -91,6 +98,11 @@ func (s *gkvp) SerializeValueTo(pc *PrintCtx) {
 	// if sb.jsonMode {
 	// 	sb.appendRune('}')
 	// }
+	if pc.jsonMode {
+		s.items.SerializeValueTo(pc)
+		pc.pcAppendByte('}')
+		return
+	}
 	_ = serializeAttrs(pc, s.items)
 }
 
